@@ -8,9 +8,11 @@ from .refs_backend import REF_COLLECT, REF_READ_NEXT_BLOCK
 NI = (B + '._read_next_block',)
 
 
-def stores_into(I, base_name, own):
-    return [e for e in I.events if e.kind == 'store' and e.data.get('target') == 'sub' and e.func.short == own
-            and isinstance(e.data.get('base_node'), ast.Name) and e.data['base_node'].id == base_name]
+def stores_into(I, fi):
+    """item stores into the array the function returns (whatever the local is called)"""
+    names = {n.value.id for n in ast.walk(fi.node) if isinstance(n, ast.Return) and isinstance(n.value, ast.Name)}
+    return [e for e in I.events if e.kind == 'store' and e.data.get('target') == 'sub' and e.func.short == fi.short
+            and isinstance(e.data.get('base_node'), ast.Name) and e.data['base_node'].id in names]
 
 
 def time_index(e):
@@ -52,17 +54,20 @@ def run(ctx):
         rW, IW = ctx.run(cdb, heap={'num_bits': lift(nb), 'input_file_stem': NONE}, args={'digitize': TRUE, 'requantize': TRUE},
                          no_inline=NI, expand=False, max_depth=0)
         rR, IR = ctx.run(rnb, heap={'num_bits': lift(nb)}, expand=False, max_depth=0)
-        wst = stores_into(IW, 'final_voltages', cdb.short)
+        wst = stores_into(IW, cdb)
         ctx.require(wst, 'collect_data_block: stores into the output block not found')
-        # decoder reads: R / I / Q names
+        # decoder reads: the locals bound directly to a strided selection of the raw byte buffer (frombuffer(...)[...]),
+        # in statement order (8 bit: real then imaginary bytes; 4 bit: the packed byte)
         reads = {}
         for e in IR.events:
-            if e.kind == 'store' and e.data.get('target') == 'name' and e.data['name'] in ('R', 'I', 'Q') and e.data.get('aug') is None:
+            if e.kind == 'store' and e.data.get('target') == 'name' and e.data.get('aug') is None:
                 va = e.data['value'].single_atom()
-                if va is not None and va.kind == 'sub' and 'frombuffer' in pretty(va.args[0]):
+                if va is not None and va.kind == 'sub' and any(a.kind == 'call' and a.args[0] == 'frombuffer'
+                                                               for a in T.all_atoms(va.args[0]).values()):
                     reads.setdefault(e.data['name'], e)
-        comp_names = ('R', 'I') if nb == 8 else ('Q',)
-        ctx.require(all(n in reads for n in comp_names), f'_read_next_block[{nb} bit]: raw reads of {comp_names} not found')
+        comp_names = tuple(reads)
+        ctx.require(len(comp_names) == (2 if nb == 8 else 1), f'_read_next_block[{nb} bit]: expected {2 if nb == 8 else 1} strided '
+                    f'reads of the raw byte buffer, found {len(comp_names)}')
         wl = [time_index(e) for e in wst]
         rl = []
         for n in comp_names:
@@ -142,17 +147,20 @@ def run(ctx):
            and 'antenna_source' in ast.unparse(e.data['recv_node'])]
     ctx.require(len(req) == 1, 'collect_data_block: the per-sub-block request to the antenna source was not found')
     nsamp = req[0].data['args'][1]
+    carried = {a.args[0] for a in T.all_atoms(nsamp).values() if a.kind == 'loopvar'}
+    ctx.ob('AGREE', 'the request length depends on exactly one loop-carried quantity (the window count of the sub-block)', cdb,
+           len(carried) == 1, {'request': pretty(nsamp)[:300]}, node=req[0].node, construct='antenna_source.get_samples(...) [window count]')
     so = T.mk_attr(T.mk_attr(sym('self'), 'antenna_source'), 'start_obs')
 
     def with_W(t):
         """name the (loop-carried, possibly shortened) window count W as one integer symbol"""
-        cands = [a for a in T.all_atoms(t).values() if a.kind == 'loopvar' and T.LOOPVAR_LABELS.get((a.args[0], a.args[1]), a.args[0]) == 'W']
+        cands = [a for a in T.all_atoms(t).values() if a.kind == 'loopvar']      # the one loop-carried local the length depends on
         t2 = t
         # the conditional choice between the regular and the shortened last window count is replaced as a whole
         for a in sorted(T.all_atoms(t).values(), key=lambda x: -len(x.key)):
             if a.kind == 'ite' and any(c.key in T.all_atoms(Term.of(a)) for c in cands):
                 t2 = T.subst(t2, lambda x, a=a: sym('Wn') if x.key == a.key else None)
-        return T.subst(t2, lambda x: sym('Wn') if (x.kind == 'loopvar' and T.LOOPVAR_LABELS.get((x.args[0], x.args[1]), x.args[0]) == 'W') else None)
+        return T.subst(t2, lambda x: sym('Wn') if x.kind == 'loopvar' else None)
     TB = ctx.spec(cdb, 'self.num_taps * self.num_branches', I=ctx.interp(expand=False))
     Tt = ctx.spec(cdb, 'self.num_taps', I=ctx.interp(expand=False))
     n1 = with_W(T.assume(nsamp, {so.key: True}))
